@@ -22,8 +22,8 @@ def P(pid, rules, explanation, not_decided, assumptions=(), design="3"):
                           assumptions=list(assumptions), design=f"DESIGN.md section {design}")
 
 
-P("C01", ["IDX", "RETRY", "SIGN", "FREE", "CPFORM", "ARGNAME", "DIRECTION", "RATIOFORM", "PGFORM", "SUBFORM", "SHARED", "GETB"],
-  "(GETB) the box the solver works in is the caller's box (a side becomes infinite only when it is None); (SHARED, conservative) the kernels keep no module-level state between calls, so an iteration depends on this run only; Structural necessary conditions of C01, decided on every path of the source: (IDX) index-space typing of "
+P("C01", ["IDX", "RETRY", "SIGN", "FREE", "CPFORM", "ARGNAME", "DIRECTION", "RATIOFORM", "PGFORM", "SUBFORM", "SHARED", "GETB", "SF4", "ESC"],
+  "(SF4, ESC) the wrapper hands out a new array for every gradient, never its memo or the user's own buffer, so the stored gradients stay distinct objects (otherwise y = 0 and the solver stalls); (GETB) the box the solver works in is the caller's box (a side becomes infinite only when it is None); (SHARED, conservative) the kernels keep no module-level state between calls, so an iteration depends on this run only; Structural necessary conditions of C01, decided on every path of the source: (IDX) index-space typing of "
   "get_cauchy_point shows the sorted breakpoint list is filtered and walked in its own rank space, so variables "
   "resting on a bound with the gradient pushing outward (t = 0) cannot scramble the breakpoint order -- the "
   "defect behind the stalls the property names; (RETRY) a failed line search aborts only after a retry from a "
@@ -34,8 +34,8 @@ P("C01", ["IDX", "RETRY", "SIGN", "FREE", "CPFORM", "ARGNAME", "DIRECTION", "RAT
   "bound ratios are (bound - point)/direction.",
   "convergence to a KKT point, the level reached by the projected gradient, absence of stalls in general "
   "(floating-point trajectories over all convex objectives)", design="3/C01")
-P("C02", ["BOX", "SIGN", "FDB", "SF6", "GETB"],
-  "(GETB) get_bounds hands on the caller's box unchanged (None -> infinity only); (SF6) the user's callables receive private copies, so user code cannot write the projected arrays the provenance argument tracks; C02 is decided as a provenance property: (BOX) a must-dataflow shows that every argument of the wrapper's "
+P("C02", ["BOX", "SIGN", "FDB", "SF6", "GETB", "EVALPT"],
+  "(EVALPT) the package itself evaluates the objective at the cached (in-box) point only; every other evaluation goes through SciPy's approx_derivative, bounded by FDB; (GETB) get_bounds hands on the caller's box unchanged (None -> infinity only); (SF6) the user's callables receive private copies, so user code cannot write the projected arrays the provenance argument tracks; C02 is decided as a provenance property: (BOX) a must-dataflow shows that every argument of the wrapper's "
   "fun/grad/fun_and_grad (hence of the user's objective, gradient and of approx_derivative's x0), the callback's "
   "x and every returned x is the output of a projection onto the caller's [lb, ub] (np.clip / clip2bounds / "
   "min-max with the very lb, ub of get_bounds) or a copy of it, with no arithmetic in between; (SIGN) step "
@@ -50,8 +50,8 @@ P("C03", ["DOWNHILL", "ACCEPT", "KEEP", "LSCAP", "SCALEPOS", "UNITS", "SF1", "SF
   "line search; (KEEP) the failed-search branch does not touch "
   "(x, fun, jac); (LSCAP) the per-iteration evaluation cap is min(.., maxfun - nfev).",
   "monotonicity under non-determinism or rounding of the user's objective itself", design="3/C03")
-P("C04", ["EXIT", "RET", "NITB", "LSCAP", "ONCE", "PGFORM"],
-  "C04 is a control-flow property and all its clauses are decided: (EXIT) path-sensitive exploration of "
+P("C04", ["EXIT", "RET", "NITB", "LSCAP", "ONCE", "PGFORM", "LSBUD"],
+  "(LSBUD) the line search spends at most the budget it is given, so that nfev stays within maxfun plus one line search; C04 is a control-flow property and all its clauses are decided: (EXIT) path-sensitive exploration of "
   "minimize_lbfgsb over (message, success flag, comparison knowledge, facts) shows every state reaching a return "
   "carries a documented terminal message that is true of the returned state and success is False exactly for the "
   "abnormal message; (RET) every return is a result built at the return from the internal state and the wrapper's "
@@ -61,23 +61,23 @@ P("C04", ["EXIT", "RET", "NITB", "LSCAP", "ONCE", "PGFORM"],
   "relative-reduction quantity is (f_old - f)/max(|f_old|, |f|, 1), up to algebraic equivalence.",
   "arithmetic inside the comparisons is abstracted to orderings of syntactically identical operands; NaN "
   "projected gradients are outside the property's smooth-objective premise", design="3/C04")
-P("C05", ["COH", "CNT", "FIELDS", "SF1", "SF3", "SF5", "SF6", "ESC", "SF4"],
-  "(ESC) no live buffer escapes into a result or callback state, (SF4) the scaling factor multiplies a fresh product at return time; Under the premise that the user's functions are deterministic, bit-equality reduces to a typestate: (COH) a "
+P("C05", ["COH", "CNT", "FIELDS", "SF1", "SF3", "SF5", "SF6", "ESC", "SF4", "RESTARTX"],
+  "(RESTARTX) a restart accepts a start point only if it is exactly checkpoint.x, whose fun and jac it then reports; (ESC) no live buffer escapes into a result or callback state, (SF4) the scaling factor multiplies a fresh product at return time; Under the premise that the user's functions are deterministic, bit-equality reduces to a typestate: (COH) a "
   "must-dataflow over minimize_lbfgsb shows each result / callback state is built where fun and jac are the "
   "wrapper's outputs for the reported x with no rebinding or in-place write in between; (CNT) counters are "
   "reported from and restored into the wrapper only, restores precede every evaluation; (FIELDS) writer/reader "
   "field agreement; the wrapper's own counting / caching rules are those of C15.",
   "bit-equality of the user's arithmetic between two calls (trusted: same call); determinism of user code",
   design="3/C05")
-P("C06", ["ORIENT", "FIELDS", "MEM", "OWN", "FDB", "BIND", "SFREAD", "UNITS", "MAXLEN"],
-  "(MAXLEN) a history deque built with maxlen= is bounded by exactly maxcor + 1; (UNITS) values read back from a checkpoint are used in the unit they were stored in (writer/reader agreement on the scaling factor); (OWN) decoding a checkpoint does not write into it, (FDB) differencing options depend on the caller's arguments only, (BIND) the line search sees the global iteration number, (SFREAD) the solver reads no evaluation history of the wrapper, which a restart cannot reproduce; (ORIENT) orientation typing of the checkpoint decoder: increments accumulated from the newest pair backwards, "
+P("C06", ["ORIENT", "FIELDS", "MEM", "OWN", "FDB", "BIND", "SFREAD", "UNITS", "MAXLEN", "RESTARTX", "BFGSFORM"],
+  "(RESTARTX) the continuation starts at exactly the checkpoint's point; (BFGSFORM) the limited-memory matrices are rebuilt from the restored history X, G alone, so nothing but the checkpoint determines the continuation; (MAXLEN) a history deque built with maxlen= is bounded by exactly maxcor + 1; (UNITS) values read back from a checkpoint are used in the unit they were stored in (writer/reader agreement on the scaling factor); (OWN) decoding a checkpoint does not write into it, (FDB) differencing options depend on the caller's arguments only, (BIND) the line search sees the global iteration number, (SFREAD) the solver reads no evaluation history of the wrapper, which a restart cannot reproduce; (ORIENT) orientation typing of the checkpoint decoder: increments accumulated from the newest pair backwards, "
   "subtracted from the newest point, appended oldest-first, identical shape for X and G -- the inverse of the "
   "encoder fixed by SIB; (FIELDS) every field a restart reads is written by every result and lands in the live "
   "variable it came from; (MEM) the refill is bounded by maxcor+1 points and drops from the left, so reducing "
   "maxcor keeps the most recent pairs.",
   "agreement 'up to rounding' of the continued iterates with the uninterrupted run (arithmetic)", design="3/C06")
-P("C07", ["ESC", "NITOFF", "SIB", "CBUSE", "CNT", "FIELDS", "ORIENT", "DOWNHILL", "BIND", "SFREAD", "LSCAP"],
-  "(LSCAP) the line-search cap is computed from the counters at the time of use, so a restart sees the same cap as the uninterrupted run; (SFREAD, DOWNHILL, BIND) the line search depends only on quantities a checkpoint carries: start value, global iteration number, evaluators; (ESC) may-alias origins of everything handed to the callback are disjoint from the targets of every in-place "
+P("C07", ["ESC", "NITOFF", "SIB", "CBUSE", "CNT", "FIELDS", "ORIENT", "DOWNHILL", "BIND", "SFREAD", "LSCAP", "SHARED"],
+  "(SHARED) no solver state lives outside what the callback state carries (no module-level state written by the package); (LSCAP) the line-search cap is computed from the counters at the time of use, so a restart sees the same cap as the uninterrupted run; (SFREAD, DOWNHILL, BIND) the line search depends only on quantities a checkpoint carries: start value, global iteration number, evaluators; (ESC) may-alias origins of everything handed to the callback are disjoint from the targets of every in-place "
   "write reachable afterwards; (NITOFF) counter-offset analysis: the state's nit equals the nit of a run stopped "
   "at that iteration; (SIB) the state and the final result bind the same keywords to the same expressions; "
   "(CBUSE) the callback's result only decides the user-callback stop and nothing else depends on the presence "
@@ -85,8 +85,8 @@ P("C07", ["ESC", "NITOFF", "SIB", "CBUSE", "CNT", "FIELDS", "ORIENT", "DOWNHILL"
   "restored into the wrapper from the right fields before any evaluation, (FIELDS) writer/reader field agreement, "
   "(ORIENT) the history decoder inverts the encoder.",
   "numerical equality of the continuation with the uninterrupted run", design="3/C07")
-P("C08", ["IDX", "SIGN", "PIN", "CPFORM", "RATIOFORM", "BFGSFORM", "OWN"],
-  "(BFGSFORM) the model handed to the kernel is the consistent compact form, (OWN) the kernel does not write the model it is given; (IDX) index-space typing of the breakpoint bookkeeping (the property's named defect); (SIGN) breakpoints "
+P("C08", ["IDX", "SIGN", "PIN", "CPFORM", "RATIOFORM", "BFGSFORM", "OWN", "INVMFORM"],
+  "(INVMFORM) the factors of the middle matrix are computed from D, L, S'S, theta by exact algebra (no floor or clamp); (BFGSFORM) the model handed to the kernel is the consistent compact form, (OWN) the kernel does not write the model it is given; (IDX) index-space typing of the breakpoint bookkeeping (the property's named defect); (SIGN) breakpoints "
   "t >= 0 on both branches, pinned bound on the side of d, f' <= 0, f'' >= 0 at their definitions; (PIN) "
   "variables reaching a bound are pinned by copying the bound, not by arithmetic; (CPFORM) the initialisation, "
   "the per-breakpoint updates of c, f', f'', p, dt_min and the final segment are symbolically executed into a "
@@ -95,15 +95,15 @@ P("C08", ["IDX", "SIGN", "PIN", "CPFORM", "RATIOFORM", "BFGSFORM", "OWN"],
   "floating-point error of these formulas; that the loop visits breakpoints until the first local minimiser "
   "(control structure beyond IDX); model decrease as a numerical fact",
   design="3/C08")
-P("C09", ["SIGN", "ALPHA", "FREE", "RATIOFORM", "SUBFORM", "KFACT", "SHARED", "OWN", "KFORM", "KSOLVE"],
-  "(KSOLVE) the reduced system is solved as LK^-T E LK^-1 with E = diag(-I, I), with the factor of this call; (KFORM) the four blocks of K are -D - Y'ZZ'Y/theta, L_A - R_Z, its transpose and theta S'AA'S, decided in an algebra of triangular parts; (KFACT) the LEL^T factor of K has the reference block form on its only non-trivial path, (SHARED, OWN; conservative) the kernel keeps no state between calls and does not write its inputs; The three places where the subspace step touches the box: (SIGN) truncation ratios non-negative on both "
+P("C09", ["SIGN", "ALPHA", "FREE", "RATIOFORM", "SUBFORM", "KFACT", "SHARED", "OWN", "KFORM", "KSOLVE", "BFGSFORM", "INVMFORM"],
+  "(INVMFORM) the factors of the middle matrix are computed from D, L, S'S, theta by exact algebra (no floor or clamp); (BFGSFORM) the matrices W, M, theta the subspace step uses are those of the stored pairs; (KSOLVE) the reduced system is solved as LK^-T E LK^-1 with E = diag(-I, I), with the factor of this call; (KFORM) the four blocks of K are -D - Y'ZZ'Y/theta, L_A - R_Z, its transpose and theta S'AA'S, decided in an algebra of triangular parts; (KFACT) the LEL^T factor of K has the reference block form on its only non-trivial path, (SHARED, OWN; conservative) the kernel keeps no state between calls and does not write its inputs; The three places where the subspace step touches the box: (SIGN) truncation ratios non-negative on both "
   "branches; (ALPHA) the truncation factor is min(1, nonneg) and multiplies the whole step once; (FREE) free set = "
   "strictly interior variables of the Cauchy point, active set its complement, step enters only through Z; "
   "(RATIOFORM) ratios are (bound - x_c)/dHat; (SUBFORM) reduced gradient r = g + theta(x_c - x) - W M c and step "
   "dHat = -(1/theta)(rHat + (1/theta) Z^T W v) match the direct primal method up to algebraic equivalence.",
   "the solve of the reduced system itself (K, LEL^T, Sherman-Morrison-Woodbury), model decrease, descent direction", design="3/C09")
-P("C10", ["MEM", "BFGSFORM", "OFFER", "RETRY", "MATSOWN", "BIND", "MAXLEN"],
-  "(MAXLEN) idem; (BIND) the memory update is given the curvature threshold eps_SY (not another epsilon), so every stored pair satisfies s.y > eps_SY y.y; (MATSOWN) the fields of the compact representation are assigned only inside bfgsmats.py, where BFGSFORM checks them; (RETRY) the retry branch cuts the stored points to one when it resets the matrices, so matrices and stored pairs agree; The four memory-discipline clauses of C10 are decided package-wide over every insertion / removal / rebinding "
+P("C10", ["MEM", "BFGSFORM", "OFFER", "RETRY", "MATSOWN", "BIND", "MAXLEN", "INVMFORM"],
+  "(INVMFORM) the factors of the middle matrix are computed from D, L, S'S, theta by exact algebra (no floor or clamp); (MAXLEN) idem; (BIND) the memory update is given the curvature threshold eps_SY (not another epsilon), so every stored pair satisfies s.y > eps_SY y.y; (MATSOWN) the fields of the compact representation are assigned only inside bfgsmats.py, where BFGSFORM checks them; (RETRY) the retry branch cuts the stored points to one when it resets the matrices, so matrices and stored pairs agree; The four memory-discipline clauses of C10 are decided package-wide over every insertion / removal / rebinding "
   "of the point and gradient histories (MEM): guarded by the strict curvature test on the inserted pair, "
   "reject-no-touch for history and matrices, bounded FIFO (<= maxcor pairs, oldest dropped), lock-step of X and G; "
   "(BFGSFORM) theta = y.y/s.y of the newest pair and S, Y, L, D, W, the middle-matrix factors assembled from the "
@@ -111,8 +111,8 @@ P("C10", ["MEM", "BFGSFORM", "OFFER", "RETRY", "MATSOWN", "BIND", "MAXLEN"],
   "offered to the memory.",
   "equality of the compact representation with dense BFGS, positive definiteness, secant equation (matrix "
   "identities in floating point)", design="3/C10")
-P("C11", ["BOX", "DOWNHILL", "LSBUD", "SIGN", "RATIOFORM", "FDB", "LSPROTO"],
-  "(LSPROTO) the trial evaluated is the step DCSRCH asked for (bounded by the maximum feasible step it was given); (FDB) the stencil of a finite-difference gradient evaluated at a trial point is bounded by the caller's box; (BOX) the three trial-point sites of line_search are projections onto [lb, ub]; (DOWNHILL) returned step is "
+P("C11", ["BOX", "DOWNHILL", "LSBUD", "SIGN", "RATIOFORM", "FDB", "LSPROTO", "EVALPT"],
+  "(EVALPT) the package itself evaluates the objective at the cached (in-box) point only; every other evaluation goes through SciPy's approx_derivative, bounded by FDB; (LSPROTO) the trial evaluated is the step DCSRCH asked for (bounded by the maximum feasible step it was given); (FDB) the stencil of a finite-difference gradient evaluated at a trial point is bounded by the caller's box; (BOX) the three trial-point sites of line_search are projections onto [lb, ub]; (DOWNHILL) returned step is "
   "None or strictly downhill w.r.t. the start value (a zero step can never be returned under it); (LSBUD) one "
   "evaluation per loop iteration, counter guard `< max_iter`, SciPy's DCSRCH._iterate calls no user function "
   "(checked on SciPy's source); (SIGN) the maximum step is non-negative.",
@@ -129,8 +129,8 @@ P("C12", ["CONST", "BIND", "ARGNAME", "DIRECTION", "OFFER", "STEPINIT", "BFGSFOR
   "selects the first-iteration policy is the same in a retained state and in a run stopped there.",
   "iterate-by-iterate agreement with the Fortran reference in floating point; the subspace solve; SciPy's dcsrch",
   design="3/C12")
-P("C13", ["FILT", "SEED", "FLOW", "MEM", "FILTERWALK", "DOWNHILL", "STEPINIT", "SIB"],
-  "(SIB) the pairs carried by states and results are differences of the histories as they are at the construction (not of a copy taken before the rewrite); (STEPINIT) the line search starts from the caller's (possibly redefined) f0, not from a value memoised by the wrapper; (FILT) must-pass-through with path-correlation pruning: from every call of the user's update function every "
+P("C13", ["FILT", "SEED", "FLOW", "MEM", "FILTERWALK", "DOWNHILL", "STEPINIT", "SIB", "BFGSFORM", "SF2"],
+  "(BFGSFORM) after the objective is redefined the matrices are rebuilt from the rewritten history; (SF2) the wrapper remembers one point only and forgets it on every move, so no value of the old objective is served at another point; (SIB) the pairs carried by states and results are differences of the histories as they are at the construction (not of a copy taken before the rewrite); (STEPINIT) the line search starts from the caller's (possibly redefined) f0, not from a value memoised by the wrapper; (FILT) must-pass-through with path-correlation pruning: from every call of the user's update function every "
   "path to a consumer of G (matrix update, callback state, returned result) passes the curvature filter whose "
   "result rebinds X, G; (SEED) the filter seeds its output with the newest element and only grows on the left; "
   "(FLOW) argument / target order of both calls; (MEM) the filter's insertions are guarded by the curvature test "
@@ -152,19 +152,19 @@ P("C15", ["SF1", "SF2", "SF3", "SF4", "SF5", "SF6", "SF7"],
   "(SF4), one increment per user call (SF5), who-may-call the raw user functions (SF6), the differencer gets the "
   "counting wrapper, x0=self.x, f0=self.f after _update_fun (SF7).", "nothing (clause-complete under 2.1)",
   design="3/C15")
-P("C16", ["FDB", "MODES", "BOX", "SF7", "CNT", "SF5"],
-  "(CNT, SF5) nfev counts every objective evaluation incl. stencil points, also across a restart; (BOX)+(FDB) the differencer raises iff its x0 is outside `bounds`: x0 is the wrapper's cached point, which is "
+P("C16", ["FDB", "MODES", "BOX", "SF7", "CNT", "SF5", "EVALPT"],
+  "(EVALPT) the package itself evaluates the objective at the cached (in-box) point only; every other evaluation goes through SciPy's approx_derivative, bounded by FDB; (CNT, SF5) nfev counts every objective evaluation incl. stencil points, also across a restart; (BOX)+(FDB) the differencer raises iff its x0 is outside `bounds`: x0 is the wrapper's cached point, which is "
   "a projection onto the caller's box, and `bounds` is that same box for every finite-difference mode; (MODES) "
   "each documented mode has a handler on both sides; (SF7) stencil evaluations go through the counting wrapper.",
   "agreement of the final objective value with the exact-gradient solution to the accuracy of the scheme",
   design="3/C16")
-P("C17", ["SCALER", "UNITS", "SF4", "SCALEPOS", "SCALEUSE", "OWN"],
-  "(SCALEUSE) outside the wrapper the factor is read only to scale f0/grad once and to un-scale the target test, (OWN) the packaged scaler does not write the arrays it is handed; (SCALEPOS) the packaged scaler returns a positive factor; (SCALER) one call site outside loops, arguments = clipped start point, unscaled gradient, lb, ub, result is the "
+P("C17", ["SCALER", "UNITS", "SF4", "SCALEPOS", "SCALEUSE", "OWN", "SFREAD"],
+  "(SFREAD) nobody outside the wrapper writes its raw memo, so the factor is applied exactly once, at the accessor boundary; (SCALEUSE) outside the wrapper the factor is read only to scale f0/grad once and to un-scale the target test, (OWN) the packaged scaler does not write the arrays it is handed; (SCALEPOS) the packaged scaler returns a positive factor; (SCALER) one call site outside loops, arguments = clipped start point, unscaled gradient, lb, ub, result is the "
   "only write of the factor outside the class; (UNITS) raw/scaled unit typing: target tested on the unscaled "
   "value, ftol test compares like units, results and line search get scaled values; (SF4) scale applied inside "
   "the accessors.", "equality of two complete runs (relation between trajectories)", design="3/C17")
-P("C18", ["SIB", "ESC", "MEM", "DIAG", "RETRY", "UNITS"],
-  "(UNITS) the gradients stored in the history are all scaled by the same factor, so their differences are differences of the user's gradients; (RETRY) after a failed search the retained point and gradient are the newest stored ones; (SIB) every LbfgsInvHessProduct is built from (diff(X), diff(G)) in that order (or the checkpoint's pairs with "
+P("C18", ["SIB", "ESC", "MEM", "DIAG", "RETRY", "UNITS", "RESTARTX"],
+  "(RESTARTX) after a restart the first new pair is a difference of gradients the user returned at the two retained iterates: the start point is exactly checkpoint.x; (UNITS) the gradients stored in the history are all scaled by the same factor, so their differences are differences of the user's gradients; (RETRY) after a failed search the retained point and gradient are the newest stored ones; (SIB) every LbfgsInvHessProduct is built from (diff(X), diff(G)) in that order (or the checkpoint's pairs with "
   "one slice); (ESC) stored points / gradients are private and never written afterwards, so pairs are bit-exact "
   "differences of visited points; (MEM) <= maxcor pairs each with s.y > eps*y.y >= 0; (DIAG) the diagonal utility "
   "probes e_i, reads and writes index i, over range(n), with a fresh probe per iteration.",
